@@ -68,9 +68,23 @@ impl Va {
             0 => true,
             1 => false,
             2 => curr > prev,
+            // 4: "only newer", and slow (the parallel suite uses it: a verdict that takes a while
+            // shows whether it is still about the value that is actually replaced)
+            4 => {
+                for _ in 0..300 {
+                    std::hint::spin_loop();
+                }
+                curr > prev
+            }
             _ => curr % 3 != prev % 3,
         }
     }
+}
+
+thread_local! {
+    /// values handed to on_exit on this thread since it was last drained (the parallel suite pairs
+    /// them with the write that replaced them: on_exit runs inside the writer's own call)
+    pub static EXITS: std::cell::RefCell<Vec<u64>> = std::cell::RefCell::new(Vec::new());
 }
 impl UpdateValidator for Va {
     type Value = u64;
@@ -84,6 +98,9 @@ pub struct Cb(pub Arc<Mutex<Vec<String>>>);
 impl CacheCallback for Cb {
     type Value = u64;
     fn on_exit(&self, v: Option<u64>) {
+        if let Some(x) = v {
+            EXITS.with(|e| e.borrow_mut().push(x));
+        }
         self.0.lock().unwrap().push(format!("exit:{}", v.map_or("none".to_string(), |x| x.to_string())));
     }
     fn on_evict(&self, item: Item<u64>) {
@@ -1055,18 +1072,19 @@ pub fn suite_stress(t: &mut Trace, seed: u64, rounds: u64) -> String {
         let nthreads = rng.range(2, 6) as usize;
         let nkeys = rng.range(4, 14);
         let per_thread = 1500u64;
+        let va = *rng.pick(&[0u8, 4, 4]);
         verif::clock::set_ns(1_700_000_000_000_000_000);
         let cb = Cb::default();
         let ck = Arc::new(if is_async {
             CK::A(AsyncCacheBuilder::new_with_key_builder(64, max_cost, TableKB)
-                .set_coster(Co(0)).set_update_validator(Va(0)).set_callback(cb.clone())
+                .set_coster(Co(0)).set_update_validator(Va(va)).set_callback(cb.clone())
                 .set_metrics(true).set_ignore_internal_cost(true)
                 .set_buffer_size(buf_cap).set_buffer_items(buffer_items)
                 .set_hasher(SeedBH(seed ^ round))
                 .finalize(spawner).expect("async cache"))
         } else {
             CK::S(CacheBuilder::new_with_key_builder(64, max_cost, TableKB)
-                .set_coster(Co(0)).set_update_validator(Va(0)).set_callback(cb.clone())
+                .set_coster(Co(0)).set_update_validator(Va(va)).set_callback(cb.clone())
                 .set_metrics(true).set_ignore_internal_cost(true)
                 .set_buffer_size(buf_cap).set_buffer_items(buffer_items)
                 .set_hasher(SeedBH(seed ^ round))
@@ -1075,14 +1093,17 @@ pub fn suite_stress(t: &mut Trace, seed: u64, rounds: u64) -> String {
         t.case(round, "stress");
         let lookups = Arc::new(AtomicU64::new(0));
         let accepted: Arc<Mutex<Vec<u64>>> = Arc::new(Mutex::new(Vec::new()));
+        let vetoes: Arc<Mutex<Vec<(u64, u64)>>> = Arc::new(Mutex::new(Vec::new()));
         let mut hs = Vec::new();
         for th in 0..nthreads {
             let ck = ck.clone();
             let lookups = lookups.clone();
             let accepted = accepted.clone();
             let mut r = Rng::new(seed.wrapping_mul(31).wrapping_add(round * 97 + th as u64));
+            let vetoed: Arc<Mutex<Vec<(u64, u64)>>> = vetoes.clone();
             hs.push(std::thread::spawn(move || {
                 let mut mine = Vec::new();
+                EXITS.with(|e| e.borrow_mut().clear());
                 for i in 0..per_thread {
                     let idx = r.range(1, nkeys);
                     match r.below(10) {
@@ -1091,14 +1112,22 @@ pub fn suite_stress(t: &mut Trace, seed: u64, rounds: u64) -> String {
                             lookups.fetch_add(1, AO::SeqCst);
                         }
                         6..=8 => {
-                            let val = 1_000_000 * (th as u64 + 1) + i;
+                            // unique, and interleaved between the threads (who holds the newer value varies)
+                            let val = 1_000_000 + ((i << 4) | th as u64);
                             let cost = r.range(1, 4) as i64;
                             if do_op(&ck, &Op::Insert { idx, conf: 0, val, cost, ttl_ns: 0, only: false }) == "true" {
                                 mine.push(val);
                             }
+                            // what this write replaced in the store was handed to on_exit inside the call
+                            for old in EXITS.with(|e| std::mem::take(&mut *e.borrow_mut())) {
+                                if !Va(va).allows(old, val) {
+                                    vetoed.lock().unwrap().push((old, val));
+                                }
+                            }
                         }
                         _ => {
                             let _ = do_op(&ck, &Op::Remove { idx, conf: 0 });
+                            EXITS.with(|e| e.borrow_mut().clear());
                         }
                     }
                 }
@@ -1138,7 +1167,10 @@ pub fn suite_stress(t: &mut Trace, seed: u64, rounds: u64) -> String {
         }
         let m = s.metrics.unwrap_or([0; 11]);
         let l = lookups.load(AO::SeqCst);
-        let cfgs = format!("{} buffer_items={} buffer={} max_cost={} threads={} keys={}", fl, buffer_items, buf_cap, max_cost, nthreads, nkeys);
+        let cfgs = format!("{} buffer_items={} buffer={} max_cost={} threads={} keys={} validator={}", fl, buffer_items, buf_cap, max_cost, nthreads, nkeys, va);
+        if let Some((old, new)) = vetoes.lock().unwrap().first().copied() {
+            fails.push(("C09", round, format!("{}: an insert replaced the resident value {} by {} although the UpdateValidator (only newer values) vetoes that replacement", cfgs, old, new)));
+        }
         if m[0] + m[1] != l {
             fails.push(("C17", round, format!("{}: hits {} + misses {} != {} lookups made by free-running threads", cfgs, m[0], m[1], l)));
         }
